@@ -107,6 +107,7 @@ pub struct World {
     fresh: Arc<Fresh>,
     opid: u64,
     reid: bool,
+    overlap: bool,
     nthreads: usize,
 }
 
@@ -118,11 +119,15 @@ impl World {
     pub fn new(seed: u64, idx: u64, fresh: Arc<Fresh>, nthreads: usize) -> World {
         let mut rng = Rng::derive(seed, 0xC03, idx);
         let reid = rng.chance(1, 4);
+        // both collectors number their spans 1, 2, 3, ... (as the registry does): handles of
+        // different collectors then carry equal numeric ids
+        let overlap = rng.chance(1, 3);
         let mut protos = vec![];
         let mut disp = vec![];
         for c in 0..2u64 {
             let thresh = if c == 0 { 3 + rng.usize(3) } else { 1 + rng.usize(5) };
-            let p = Arc::new(Proto::new(c + 1, thresh, reid));
+            let p = Proto::new(c + 1, thresh, reid);
+            let p = Arc::new(if overlap { p.overlapping() } else { p });
             disp.push(Dispatch::new(SharedProto(p.clone())));
             protos.push(p);
         }
@@ -140,6 +145,7 @@ impl World {
             fresh,
             opid: 1,
             reid,
+            overlap,
             nthreads,
         }
     }
@@ -226,7 +232,7 @@ impl World {
         let livef: Vec<usize> = (0..self.futs.len()).filter(|&i| self.futs[i].is_some()).collect();
         let has = !live.is_empty();
         let deep = depth >= 3;
-        let w: [u32; 21] = [
+        let w: [u32; 22] = [
             6,                                          // 0 NewMacro
             if self.metas.is_empty() { 0 } else { 4 },  // 1 NewApi
             1,                                          // 2 NewNone
@@ -248,6 +254,7 @@ impl World {
             if livef.is_empty() { 0 } else { 1 },       // 18 IntoInner
             if livef.is_empty() || livef.len() >= 4 { 0 } else { 1 }, // 19 CloneFut
             if has { 2 } else { 0 },                    // 20 in_scope / enter guard unwound by a caught panic
+            if live.len() >= 2 { 3 } else { 0 },        // 21 CloneFrom
         ];
         let op = self.rng.weighted(&w);
         let opid = self.opid;
@@ -298,7 +305,18 @@ impl World {
                 }
             }
             1 => {
-                let meta = *self.rng.pick(&self.metas);
+                let mut meta = *self.rng.pick(&self.metas);
+                // overlapping id spaces: when the id this collector hands out next is carried by a
+                // live handle of the other collector, reuse that handle's callsite half of the time,
+                // so that handles equal in (callsite, numeric id) but not in collector exist
+                if let (true, Some(d)) = (self.overlap, dflt) {
+                    let next = self.protos[d].peek_next();
+                    let twin = live.iter().filter_map(|&i| self.handles[i].as_ref()).find(|x| x.owner.is_some() && x.owner != Some(d) && x.id == Some(next)).and_then(|x| x.span.metadata());
+                    if let (Some(m), true) = (twin, self.rng.bool()) {
+                        meta = m;
+                        self.stat("spans_created_as_twin_of_another_collectors_span");
+                    }
+                }
                 let fs = meta.fields();
                 let f = fs.field("id").expect("HARNESS: pool spans have an id field");
                 let v = opid;
@@ -720,6 +738,109 @@ impl World {
                     _ => { self.expect(None, &[]); }
                 }
                 self.handles[h] = Some(x);
+            }
+            21 => {
+                // dst.clone_from(&src): `*dst = src.clone()` - one clone notification to src's
+                // collector, then one close notification for the handle dst used to be, to ITS
+                // collector; directly or through a container whose clone_from forwards to it
+                let same_key = |a: &H, b: &H| a.owner.is_some() && b.owner.is_some() && a.owner != b.owner && a.id == b.id
+                    && a.span.metadata().map(|m| m.callsite()) == b.span.metadata().map(|m| m.callsite());
+                let mut twins = vec![];
+                for &i in &live {
+                    for &j in &live {
+                        if i != j && same_key(self.handles[i].as_ref().unwrap(), self.handles[j].as_ref().unwrap()) {
+                            twins.push((i, j));
+                        }
+                    }
+                }
+                let (hd, hs) = if !twins.is_empty() && self.rng.chance(2, 3) {
+                    *self.rng.pick(&twins)
+                } else {
+                    let hd = *self.rng.pick(&live);
+                    let rest: Vec<usize> = live.iter().copied().filter(|&x| x != hd).collect();
+                    (hd, *self.rng.pick(&rest))
+                };
+                let via = self.rng.below(3);
+                let mut dst = self.handles[hd].take().unwrap();
+                let src = self.handles[hs].take().unwrap();
+                let twin = same_key(&dst, &src);
+                self.trace.push(format!(
+                    "[{t}] {}{}",
+                    match via { 0 => format!("h{hd}.clone_from(&h{hs})"), 1 => format!("Some(h{hd}).clone_from(&Some(h{hs}))"), _ => format!("vec![h{hd}].clone_from(&vec![h{hs}])") },
+                    if twin { " [different collectors, same callsite, same numeric id]" } else { "" }
+                ));
+                let (downer, did) = (dst.owner, dst.id);
+                let (sowner, sid) = (src.owner, src.id);
+                let (dspan, sspan) = match via {
+                    0 => {
+                        dst.span.clone_from(&src.span);
+                        (dst.span, src.span)
+                    }
+                    1 => {
+                        let mut a = Some(dst.span);
+                        let b = Some(src.span);
+                        a.clone_from(&b);
+                        (a.unwrap(), b.unwrap())
+                    }
+                    _ => {
+                        let mut a = vec![dst.span];
+                        let b = vec![src.span];
+                        a.clone_from(&b);
+                        (a.pop().unwrap(), { let mut b = b; b.pop().unwrap() })
+                    }
+                };
+                self.sig(if twin { "clone_from_twin" } else { "clone_from" }, sowner.or(downer), sid.is_some() || did.is_some(), depth);
+                self.stat("clone_froms");
+                if twin {
+                    self.stat("clone_froms_between_equal_ids_of_different_collectors");
+                }
+                // handles of one span (same collector, same base id): the round trip may be elided
+                let same_span = match (downer, did, sowner, sid) {
+                    (Some(a), Some(x), Some(b), Some(y)) => a == b && self.protos[a].base_of(x) == self.protos[a].base_of(y),
+                    _ => false,
+                };
+                let me = std::thread::current().id();
+                let mut new_id = sid;
+                for c in 0..self.protos.len() {
+                    let log = self.protos[c].take_log();
+                    for e in self.protos[c].take_errors() {
+                        self.err(format!("collector {}: {e}", c + 1));
+                    }
+                    for (th, call) in &log {
+                        if *th != me {
+                            self.err(format!("collector {} saw {call:?} on thread {th:?}, the operation ran on {me:?}", c + 1));
+                        }
+                    }
+                    let got: Vec<Call> = log.into_iter().map(|x| x.1).collect();
+                    let mut want = vec![];
+                    if let (Some(o), Some(id)) = (sowner, sid) {
+                        if o == c {
+                            want.push(Call::Clone { id, new: 0 });
+                        }
+                    }
+                    if let (Some(o), Some(id)) = (downer, did) {
+                        if o == c {
+                            want.push(Call::Close { id });
+                        }
+                    }
+                    let same = got.len() == want.len()
+                        && got.iter().zip(&want).all(|(g, w)| match (g, w) {
+                            (Call::Clone { id: a, .. }, Call::Clone { id: b, .. }) => a == b,
+                            (a, b) => a == b,
+                        });
+                    if same {
+                        if let Some(Call::Clone { new, .. }) = got.first() {
+                            new_id = Some(*new);
+                        }
+                    } else if same_span && got.is_empty() {
+                        // elided: dst keeps its own id
+                        new_id = did;
+                    } else {
+                        self.err(format!("clone_from: collector {} received {got:?}, expected {want:?}", c + 1));
+                    }
+                }
+                self.handles[hd] = Some(H { span: dspan, owner: sowner, id: new_id });
+                self.handles[hs] = Some(H { span: sspan, owner: sowner, id: sid });
             }
             _ => unreachable!(),
         }
